@@ -111,11 +111,14 @@ theorem C13_feed_append_partial (eng : Engine ι)
 theorem C13_chunking_irrelevant_partial (eng : Engine ι)
     (ok : List (Col ι) → (Entry ι → List (Entry ι)) → Col ι → Prop) (R : ROracle) (md : Mode)
     (hL : eng.LawfulOn ok) (hR : CutStable R) (s : PState ι) (hs : s.Ready eng) (pieces : List Units) (w : Units)
-    (hw : pieces.flatten = w) (hne : pieces ≠ []) (ho : chunkOK eng R md ok s pieces.reverse) :
+    (hw : pieces.flatten = w) (ho : chunkOK eng R md ok s pieces.reverse) :
     SetEq (completeParses eng R md (pieces.foldl (feed eng R md) s))
       (completeParses eng R md (feed eng R md s w)) ∧
     SetEq (resumable (pieces.foldl (feed eng R md) s)) (resumable (feed eng R md s w)) := by
   subst hw
+  by_cases hne : pieces = []
+  · subst hne
+    exact ⟨SetEq.refl _, SetEq.refl _⟩
   have h := chunking eng R md hL hR s hs.wf hs.settled hs.bytes pieces.reverse ho
   simp only [List.reverse_reverse] at h
   have hw1 := foldl_feed_wf eng R md hL hR pieces hs.wf
@@ -148,6 +151,16 @@ theorem C13_ready_invariant (eng : Engine ι)
     (∀ i, (start i).Ready eng) ∧
     (∀ s a, s.Ready eng → (feed eng R md s a).Ready eng) :=
   ⟨fun i => start_ready eng i, fun s a hs => feed_ready eng R md hL hR s hs a⟩
+
+/-- for an engine that satisfies the laws for ALL its passes (`Engine.Lawful`, e.g. `linEngine`) the hypotheses on the
+    passes are void -/
+theorem C13_chunking_irrelevant_all_passes_partial (eng : Engine ι) (R : ROracle) (md : Mode) (hL : eng.Lawful)
+    (hR : CutStable R) (s : PState ι) (hs : s.Ready eng) (pieces : List Units) (w : Units)
+    (hw : pieces.flatten = w) :
+    SetEq (completeParses eng R md (pieces.foldl (feed eng R md) s))
+      (completeParses eng R md (feed eng R md s w)) ∧
+    SetEq (resumable (pieces.foldl (feed eng R md) s)) (resumable (feed eng R md s w)) :=
+  C13_chunking_irrelevant_partial eng _ R md hL hR s hs pieces w hw (chunkOK_true eng R md s _)
 
 /-- the `incomplete_idx` bookkeeping: whatever one scan adds has `incomplete_idx` = length of the remembered
     prefix (0 and no prefix on ordinary states), and is put no further than the end of the fragment; a text,
@@ -182,8 +195,7 @@ theorem C13_canContinue_sound_pieces_partial (eng : Engine ι)
     (hoP : procOK eng R md ok pieces.flatten 0 s) (hoC : okc s.done (seedAt s.pend s.done.length)) :
     ∀ t, t ∉ completeParses eng R md (pieces.foldl (feed eng R md) s) := by
   intro t ht
-  have hp : pieces ≠ [] := fun h => hne (by rw [h]; rfl)
-  have h := (C13_chunking_irrelevant_partial eng ok R md hL hR s hs pieces _ rfl hp ho).1 t
+  have h := (C13_chunking_irrelevant_partial eng ok R md hL hR s hs pieces _ rfl ho).1 t
   rw [C13_canContinue_sound_partial eng ok okc R md hC s hs.settled hcc _ hne hoP hoC] at h
   exact absurd (h.mp ht) (by simp)
 
@@ -454,6 +466,163 @@ theorem C13_regex_split_counterexample :
     (completeParses linEngine digits .text
       ([[49], [50]].foldl (feed linEngine digits .text) (linStart splitAlts))).length = 2 := by
   constructor <;> decide +kernel
+
+
+/-! ## 6. the closure of the parser as it is -/
+
+section real
+open IncrE Earley
+
+/-- **the real predict / complete closure satisfies every law the chunking theorems use** — for the column passes
+    that come to their end within the fuel, in which the covering cut does not fire, and which leave no `*` / `+`
+    right-recursion state in the closed column (`earleyOk` = `CloseRes.ok`; for `can_continue`'s completion-only
+    pass: end + no cut, `earleyOkC`); for every prediction order `pred` (the iteration order of a Python `set`) -/
+theorem C13_earleyEngine_lawful (pred : Nat → NT → List (List ESym)) (fuel : Nat) :
+    (earleyEngine pred fuel).LawfulOn (earleyOk pred fuel) ∧
+    (earleyEngine pred fuel).LawfulCCOn (earleyOk pred fuel) (earleyOkC fuel) :=
+  ⟨earleyEngine_lawful pred fuel, earleyEngine_lawfulCC pred fuel⟩
+
+/-- what such a pass computes: exactly the least set closed under scanning, prediction and completion (`Der`,
+    `Proofs/IncrEarleySpec.lean`) — a set that is defined from the SETS of ordinary states of the earlier columns
+    and of the seed; the order in which the states arrived, the `complete` frames, the pending completions of
+    `predict` and the covers leave no trace -/
+theorem C13_earley_closure_spec (pred : Nat → NT → List (List ESym)) (fuel : Nat) (d : List (Col KI))
+    (f : Entry KI → List (Entry KI)) (seed : Col KI) (hok : (closeRun pred true fuel d f seed).ok = true)
+    (e : Entry KI) : e ∈ (earleyEngine pred fuel).close d f seed ↔ Der pred d f seed e :=
+  closure_spec pred d f seed hok e
+
+/-- a fresh parse is ready, and feeding keeps it ready (no condition on the passes) -/
+theorem C13_earley_ready_invariant (pred : Nat → NT → List (List ESym)) (fuel : Nat) (R : ROracle) (md : Mode)
+    (hR : CutStable R) :
+    (∀ st, (startState st).Ready (earleyEngine pred fuel)) ∧
+    (∀ s a, s.Ready (earleyEngine pred fuel) → (feed (earleyEngine pred fuel) R md s a).Ready (earleyEngine pred fuel)) :=
+  ⟨fun st => startState_ready pred fuel st,
+   fun s a hs => feed_ready (earleyEngine pred fuel) R md (earleyEngine_lawful pred fuel) hR s hs a⟩
+
+/-- **`consume(a); consume(b)` ~ `consume(a ++ b)` for the real closure**: same ordinary states in every column,
+    same scheduled states, same complete parses, same resumable states — when the passes of the three runs are
+    passes the laws are proved for (`feedOkB`, decidable: evaluated per run) -/
+theorem C13_earley_feed_append_partial (pred : Nat → NT → List (List ESym)) (fuel : Nat) (R : ROracle) (md : Mode)
+    (hR : CutStable R) (s : PState KI) (hs : s.Ready (earleyEngine pred fuel)) (a b : Units)
+    (hW : feedOkB pred fuel R md s (a ++ b) = true) (hA : feedOkB pred fuel R md s a = true)
+    (hB : feedOkB pred fuel R md (feed (earleyEngine pred fuel) R md s a) b = true) :
+    (feed (earleyEngine pred fuel) R md (feed (earleyEngine pred fuel) R md s a) b).Equiv
+      (feed (earleyEngine pred fuel) R md s (a ++ b)) ∧
+    SetEq (completeParses (earleyEngine pred fuel) R md (feed (earleyEngine pred fuel) R md
+        (feed (earleyEngine pred fuel) R md s a) b))
+      (completeParses (earleyEngine pred fuel) R md (feed (earleyEngine pred fuel) R md s (a ++ b))) ∧
+    SetEq (resumable (feed (earleyEngine pred fuel) R md (feed (earleyEngine pred fuel) R md s a) b))
+      (resumable (feed (earleyEngine pred fuel) R md s (a ++ b))) :=
+  C13_feed_append_partial (earleyEngine pred fuel) (earleyOk pred fuel) R md (earleyEngine_lawful pred fuel) hR s hs a b
+    ((feedOkB_iff pred fuel R md _ _).mp hW) ((feedOkB_iff pred fuel R md _ _).mp hA)
+    ((feedOkB_iff pred fuel R md _ _).mp hB)
+
+/-- **every way of cutting the input gives the complete parses (and resumable states) of the whole input, for the
+    real closure** — when the passes of the runs that are compared (`chunkOkB`: the pieces one by one, every
+    prefix at once, every next piece after a prefix fed at once) are passes the laws are proved for -/
+theorem C13_earley_chunking_irrelevant_partial (pred : Nat → NT → List (List ESym)) (fuel : Nat) (R : ROracle)
+    (md : Mode) (hR : CutStable R) (s : PState KI) (hs : s.Ready (earleyEngine pred fuel)) (pieces : List Units)
+    (w : Units) (hw : pieces.flatten = w) (ho : chunkOkB pred fuel R md s pieces.reverse = true) :
+    SetEq (completeParses (earleyEngine pred fuel) R md (pieces.foldl (feed (earleyEngine pred fuel) R md) s))
+      (completeParses (earleyEngine pred fuel) R md (feed (earleyEngine pred fuel) R md s w)) ∧
+    SetEq (resumable (pieces.foldl (feed (earleyEngine pred fuel) R md) s))
+      (resumable (feed (earleyEngine pred fuel) R md s w)) :=
+  C13_chunking_irrelevant_partial (earleyEngine pred fuel) (earleyOk pred fuel) R md (earleyEngine_lawful pred fuel)
+    hR s hs pieces w hw ((chunkOkB_iff pred fuel R md s _).mp ho)
+
+/-- **`can_continue() = False` is final for the real closure** (against the model's recogniser): no non-empty
+    continuation ever yields a complete parse — when the completion-only pass of `can_continue` and the first column
+    pass of the continuation are passes the laws are proved for (`ccOkB`) -/
+theorem C13_earley_canContinue_sound_partial (pred : Nat → NT → List (List ESym)) (fuel : Nat) (R : ROracle)
+    (md : Mode) (s : PState KI) (hset : s.Settled) (hcc : canContinue (earleyEngine pred fuel) s = false)
+    (v : Units) (hv : v ≠ []) (ho : ccOkB pred fuel R md s v = true) :
+    completeParses (earleyEngine pred fuel) R md (feed (earleyEngine pred fuel) R md s v) = [] :=
+  C13_canContinue_sound_partial (earleyEngine pred fuel) (earleyOk pred fuel) (earleyOkC fuel) R md
+    (earleyEngine_lawfulCC pred fuel) s hset hcc v hv ((ccOkB_iff pred fuel R md s v).mp ho).1
+    ((ccOkB_iff pred fuel R md s v).mp ho).2
+
+/-! ### non-vacuity: a recursive, ambiguous grammar, cut inside a literal -/
+
+/-- `<start> ::= <a> <start> | <a>;  <a> ::= "ab" | "a" | "b"` -/
+def exG : Grammar := ⟨[
+  ("<start>", .alt "A1" [.cat "C1" [.nt "<a>" none none, .nt "<start>" none none], .nt "<a>" none none]),
+  ("<a>", .alt "A2" [.term (.lit (.text [97, 98])), .term (.lit (.text [97])), .term (.lit (.text [98]))])]⟩
+
+/-- prediction in the order of the compiled rule table, 400 steps per column pass -/
+def exEng : Engine KI := earleyEngine (predDefault exG Variant.now.cap) 400
+
+/-- "ab" at once and as "a","b" on the real closure: every hypothesis of the theorems of this section holds (all
+    passes of all runs that are compared end, without cut, without a `*` / `+` state), both runs yield the two
+    parses `<a>("ab")` and `<a>("a") <a>("b")`, after "a" the literal "ab" waits as a resumable state with prefix
+    "a"; after "x" the parser cannot continue (and the passes the `can_continue` theorem looks at are covered) -/
+theorem C13_earley_example_run :
+    (startState "<start>").Ready exEng ∧
+    chunkOkB (predDefault exG Variant.now.cap) 400 noRegex .text (startState "<start>") [[98], [97]] = true ∧
+    feedOkB (predDefault exG Variant.now.cap) 400 noRegex .text (startState "<start>") [97, 98] = true ∧
+    (completeParses exEng noRegex .text (feed exEng noRegex .text (startState "<start>") [97, 98])).map Tree.leaves
+      = [[Leaf.text [97, 98]], [Leaf.text [97], Leaf.text [98]]] ∧
+    (completeParses exEng noRegex .text
+      ([[97], [98]].foldl (feed exEng noRegex .text) (startState "<start>"))).map Tree.leaves
+      = [[Leaf.text [97, 98]], [Leaf.text [97], Leaf.text [98]]] ∧
+    (resumable (feed exEng noRegex .text (startState "<start>") [97])).map (fun e => (e.idx, e.pre)) = [(1, [97])] ∧
+    canContinue exEng (feed exEng noRegex .text (startState "<start>") [97]) = true ∧
+    canContinue exEng (feed exEng noRegex .text (startState "<start>") [120]) = false ∧
+    ccOkB (predDefault exG Variant.now.cap) 400 noRegex .text
+      (feed exEng noRegex .text (startState "<start>") [120]) [97] = true := by
+  refine ⟨startState_ready _ _ _, by decide +kernel, by decide +kernel, by decide +kernel, by decide +kernel,
+    by decide +kernel, by decide +kernel, by decide +kernel, by decide +kernel⟩
+
+/-! ### why the passes are restricted: `place_repetition_shortcut` -/
+
+/-- `<start> ::= <b>*;  <b> ::= "y" | "z"` -/
+def stG : Grammar := ⟨[("<start>", .rep "S" .star (.nt "<b>" none none) 0 none),
+  ("<b>", .alt "A" [.term (.lit (.text [121])), .term (.lit (.text [122]))])]⟩
+
+def stNode : Node := .rep "S" .star (.nt "<b>" none none) 0 none
+/-- `<*c*>`, the right-recursive nonterminal of the `*` -/
+def stC : NT := .impl stNode 0
+def stB (u : Nat) : PT := .node (.user "<b>") none none [.leaf (.text [u])]
+/-- `<*c*> → <b> • <*c*>` starting in column `o` -/
+def stItem (o : Nat) (kids : List PT) : Entry KI :=
+  Entry.fresh ⟨⟨stC, [.n (.user "<b>") none none, .plain stC], 1, o⟩, kids⟩
+/-- column 0: `<__star> → • <*c*>`; column 1: `<*c*> → <b> • <*c*>` after a first `<b>` -/
+def stCols : List (Col KI) :=
+  [[Entry.fresh ⟨⟨.ctl stNode, [.plain stC], 0, 0⟩, []⟩], [stItem 0 [stB 120]]]
+
+def stEng : Engine KI := earleyEngine (predDefault stG Variant.now.cap) 200
+
+/-- **the real closure does NOT satisfy the law `close_core` for all passes**: with two candidates for
+    `place_repetition_shortcut` in a column (two `<*c*> → <b> • <*c*>` states that differ in their children) the
+    closed column depends on the ORDER of the seed — the shortcut rewrites the candidate that comes first
+    (here: into `<*c*> → <b> • <*c*>` from column 0 with the children of both iterations).  On /repo the two
+    orders arise from one input cut in two ways (header; `harness/props/c13.py` replays it). -/
+theorem C13_earley_close_core_needs_ok : ¬ stEng.Lawful := by
+  intro hL
+  have hs : CoreEq [stItem 1 [stB 121], stItem 1 [stB 122]] [stItem 1 [stB 122], stItem 1 [stB 121]] := by
+    intro e
+    simp only [mem_core, List.mem_cons, List.not_mem_nil, or_false]
+    constructor
+    · rintro ⟨h | h, hi⟩
+      · exact ⟨Or.inr h, hi⟩
+      · exact ⟨Or.inl h, hi⟩
+    · rintro ⟨h | h, hi⟩
+      · exact ⟨Or.inr h, hi⟩
+      · exact ⟨Or.inl h, hi⟩
+  have h := hL.close_core stCols stCols (fun _ => []) _ _ trivial trivial (forall2_coreEq_refl _) hs
+    (fun _ _ _ x hx => by cases hx) (fun _ _ _ x hx => by cases hx)
+  have h1 : (stEng.close stCols (fun _ => []) [stItem 1 [stB 121], stItem 1 [stB 122]]).any
+      (entryBeq (stItem 0 [stB 120, stB 121])) = true := by decide +kernel
+  have h2 : (stEng.close stCols (fun _ => []) [stItem 1 [stB 122], stItem 1 [stB 121]]).any
+      (entryBeq (stItem 0 [stB 120, stB 121])) = false := by decide +kernel
+  rw [List.any_eq_true] at h1
+  obtain ⟨x, hx, hb⟩ := h1
+  rw [entryBeq_iff] at hb
+  subst hb
+  have hx' := (h _).mp (mem_core.mpr ⟨hx, rfl⟩)
+  rw [List.any_eq_false] at h2
+  exact h2 _ (mem_core.mp hx').1 ((entryBeq_iff _ _).mpr rfl)
+
+end real
 
 end Incr
 end FV
